@@ -14,7 +14,13 @@
 //!                         the model runs the INDEPENDENT (specification) decoder on the same bytes
 //! Implementation-only oracles (obs "-"):
 //!   nx16 flags src | aac flags src | fqz lens src | names src | gz level src | bz2 level src | xz level src
-//!   big codec param shape len seed     (input built inside `run`; > 1 MiB inputs)
+//!   big codec param shape len seed     (input built inside `run`; > 1 MiB inputs and the witnesses of
+//!                                       the repaired normalisation defects)
+//!
+//! The check describes the REPAIRED code (fix series 01..16): there is no known-finding class left;
+//! every round-trip failure is a new failure.  The only input-derived guard kept is a safety one: an
+//! input on which an encoder WITHOUT the normalisation repair would loop forever is executed only
+//! after a probe input (which such an encoder rejects with a panic) has passed.
 
 use noodles_cram::codecs::{aac, rans_4x8::Order, rans_nx16};
 use noodles_cram::verif as v;
@@ -421,6 +427,15 @@ fn shaped(rng: &mut Rng, shape: &str, len: usize) -> Vec<u8> {
             v.extend(41..176u8);
             v
         }
+        "under4x8" => {
+            // 100 symbols x 66 + 156 symbols x 1: scaled sum 4156, excess 61 > 40 = share of the maximum
+            let mut v = Vec::new();
+            for s in 0..100u8 {
+                v.extend(std::iter::repeat(s).take(66));
+            }
+            v.extend(100..=255u8);
+            v
+        }
         "zmaxnx16" => {
             // 41 symbols x 364 + 136 symbols x 1: the same for the Nx16 normalisation (4096)
             let mut v = Vec::new();
@@ -742,13 +757,22 @@ fn generate(rng: &mut Rng, tier: &str, w: &mut CaseWriter) {
         }
         r4_inputs.push(v);
     }
+    // the normalisation correction spread over the table (modelled: compared byte for byte)
+    {
+        let mut r0 = Rng(0);
+        r4_inputs.push(shaped(&mut r0, "under4x8", 0));
+        r4_inputs.push(shaped(&mut r0, "zmax4x8", 0));
+    }
     for src in &r4_inputs {
         for order in [0u64, 1] {
             w.push("r4", vec![order.to_string(), hex(src)]);
             if order == 1 && src.len() < 4 {
                 continue;
             }
-            if src.len() <= 3000 {
+            if src.len() <= 3000 || (order == 0 && src.len() <= 16000 && src.len() > 6000) {
+                if old_correction_zeroes_max(&o0_counts(src), 4095) && !normaliser_repaired() {
+                    continue;
+                }
                 if let Outcome::Done(Ok(enc)) = guarded(AssertUnwindSafe(|| v::rans_4x8_encode(order_of(order), src))) {
                     w.push("r4d", vec![order.to_string(), hex(src), hex(&enc)]);
                 }
